@@ -405,6 +405,27 @@ func execC14(t *testing.T, prog *hx.Program, dec *simrt.Decider, verbose bool) *
 			}
 			base, _ := proto.MarshalPublish(m)
 			frame := append([]byte{}, base...)
+			{
+				// encode, then decode: the same message - also when other messages are encoded in between (the
+				// bytes an encoder returns belong to the caller: a join or status request is encoded once and
+				// sent again and again)
+				other1, _ := proto.MarshalAck(&client.Ack{Stream: "zzzzzzzzzzzzzzzzzzzzzzzzzzzzzzzz", Offset: int64(i), AckInbox: "iiiiiiiiiiiiiiiiiiii", CorrelationId: "cccccccccccccccccc"})
+				rreq := &proto.ReplicationRequest{ReplicaID: fmt.Sprintf("replica-%d", i), Offset: int64(r.Intn(1000)), LeaderEpoch: uint64(r.Intn(9))}
+				rb, _ := proto.MarshalReplicationRequest(rreq)
+				other2, _ := proto.MarshalPropagatedRequest(&proto.PropagatedRequest{Op: proto.Op_DELETE_STREAM, DeleteStreamOp: &proto.DeleteStreamOp{Stream: "yyyyyyyyyyyyyyyyyyyyyyyyyyyyyyyyyyyyyyyy"}})
+				back, err := proto.UnmarshalPublish(base)
+				rback, rerr := proto.UnmarshalReplicationRequest(rb)
+				h.oc.Checks++
+				if err != nil || !pb.Equal(m, back) {
+					h.fail("C14/roundtrip", "C14/roundtrip/publish", "a publish envelope decoded after two other messages were encoded is not the message that was encoded: %v (%v)", back, err)
+					break
+				}
+				if rerr != nil || !gpb.Equal(rreq, rback) {
+					h.fail("C14/roundtrip", "C14/roundtrip/replication-request", "a replication request decoded after another message was encoded is not the message that was encoded: %v (%v)", rback, rerr)
+					break
+				}
+				_, _ = other1, other2
+			}
 			what := ""
 			switch op.Arg(0, 0) {
 			case 0:
